@@ -128,6 +128,9 @@ def _delay_recorder(log):
 ALIAS_LISTS = [
     ["x-y"], ["x+y"], ["x-y", "y-z"], ["x-y", "x-y"], ["x-s"], ["x-s", "y-x"], ["dx-x", "x-s2"], ["x-s", "x-s2"], ["x-y", "z*c", "z-s"], ["x-p"],
     ["x-y", "y-z", "z+x"], ["x+y", "y-x"], ["x-s", "y-x", "y+s"],       # alias cycles with an odd number of negative links (regular: only solution 0)
+    # a LATER pass (iterative_simplification / a second simplify call): x is the canonical variable of a group formed earlier
+    # (its alias w is already eliminated) and now becomes an alias itself, positively or negatively
+    ["prev:x~w", "x+y"], ["prev:x~w", "y-x"], ["prev:x~-w", "x+y"], ["prev:x~w", "x-s"], ["prev:x~w", "x+y", "z-y"],
 ]
 
 
@@ -146,7 +149,9 @@ def h_alias_counting(eng):
           "x-s": lambda: E("OP_SUB", syms["x"], syms["s"]), "y-x": lambda: E("OP_SUB", syms["y"], syms["x"]), "dx-x": lambda: E("OP_SUB", syms["der(s)"], syms["x"]),
           "x-s2": lambda: E("OP_SUB", syms["x"], syms["s2"]), "z*c": lambda: E("OP_MUL", syms["z"], c), "z-s": lambda: E("OP_SUB", syms["z"], syms["s"]),
           "x-p": lambda: E("OP_SUB", syms["x"], syms["p"]), "z+x": lambda: E("OP_ADD", syms["z"], syms["x"]),
-          "y+s": lambda: E("OP_ADD", syms["y"], syms["s"])}
+          "y+s": lambda: E("OP_ADD", syms["y"], syms["s"]), "z-y": lambda: E("OP_SUB", syms["z"], syms["y"])}
+    prev = [t for t in lst if t.startswith("prev:")]
+    lst = [t for t in lst if not t.startswith("prev:")]
     eqs = [mk[s]() for s in lst]
 
     def var(n):
@@ -156,6 +161,9 @@ def h_alias_counting(eng):
     V = {n: var(n) for n in syms}
     ar_cls = eng.module_global(eng.load_module("pymoca.backends.casadi.alias_relation"), "AliasRelation")
     rel = eng.call(ar_cls, [], {})
+    for t in prev:
+        c_, a_ = t[5:].split("~")
+        eng.call(eng.getattr(rel, "add"), [c_, a_], {})          # the relation as an earlier pass left it
     delay_log = []
     model = VObj(VClass("Model"), {"states": VList([V["s"], V["s2"]]), "der_states": VList([V["der(s)"]]), "alg_states": VList([V["x"], V["y"], V["z"]]),
                                    "inputs": VList([]), "parameters": VList([V["p"]]), "constants": VList([]), "alias_relation": rel,
@@ -207,6 +215,7 @@ def _alias_substitute(log):
 REAL_LISTS = [
     ["_a-v1", "_a-v2"], ["_s-v1", "_s-v2"], ["_a-v1", "v2-_a", "_s-v3"], ["_a", "_a-v1"], ["_a-_s", "_s-v1"], ["_a-b", "b-_a"],
     ["_s-v1", "_a-_s", "_s+v2"], ["_a+v1", "b-v2", "_a-b"], ["v1-v2", "_s-_a", "_s-_a"],
+    ["_a-v1", "_a"], ["_s-v1", "_s"],          # `_v = expr; _v = 0;` -- the second definition is the bare symbol
 ]
 
 
